@@ -175,6 +175,9 @@ StepProbe(g, fr, i) == i.op = "probe" /\
         IF v.k = "ref"
         THEN {Event("probe", i.n, v.o, heap[v.o].site, "", FALSE)}
              \cup {Event("alias", i.n, h[1], 0, "", FALSE) : h \in {h \in hist : h[2] = v.o /\ h[3] = v.path /\ h[1] # i.n}}
+             \* a pointer to a pointer-like variable: the object *v refers to (the analysis answers it by an indirect query)
+             \cup (IF ValidRef(heap, v) /\ Deref(heap, v).k = "ref"
+                   THEN {Event("iprobe", i.n, Deref(heap, v).o, heap[Deref(heap, v).o].site, "", FALSE)} ELSE {})
         ELSE {})
 
 HistAfter(g) ==
@@ -317,8 +320,13 @@ Push(g, caller2, callee, e2) ==
 
 CallEv(site, f) == {Event("call", site, 0, 0, f, FALSE)}
 
+\* a pointer to a pointer-like variable passed as argument j: the object *param refers to inside the callee
+IParamEv(f, args) ==
+    {Event("iparam", j, Deref(heap, args[j]).o, heap[Deref(heap, args[j]).o].site, f, FALSE) :
+        j \in {k \in 1 .. Len(args) : args[k].k = "ref" /\ ValidRef(heap, args[k]) /\ Deref(heap, args[k]).k = "ref"}}
+
 StepCall(g, fr, i) == i.op = "call" /\
-    Push(g, Adv(fr), NewFrame(i.s, Vals(fr, i.a), <<>>, i.ds, i.n, FALSE), CallEv(i.n, i.s))
+    Push(g, Adv(fr), NewFrame(i.s, Vals(fr, i.a), <<>>, i.ds, i.n, FALSE), CallEv(i.n, i.s) \cup IParamEv(i.s, Vals(fr, i.a)))
 
 StepCallV(g, fr, i) == i.op = "callv" /\
     LET c == Val(fr, i.a[1])
